@@ -753,7 +753,10 @@ def real_fieldsagain(line):
         if how & 4:
             str(f)
         if how & 1:
-            f.data[:] = bytes.fromhex(h2)
+            try:
+                f.data[:] = bytes.fromhex(h2)
+            except TypeError:             # the frame keeps its payload in something immutable: then the buffer is replaced
+                f.data = bytearray(bytes.fromhex(h2))
         else:
             f.data = bytearray(bytes.fromhex(h2))
         f.unpack()
@@ -1912,7 +1915,10 @@ def real_gnss(line):
             if int(how) & 2:
                 f.pack()
             if int(how) & 1:
-                f.data[:] = pl
+                try:
+                    f.data[:] = pl
+                except TypeError:
+                    f.data = bytearray(pl)
             else:
                 f.data = bytearray(pl)
             f.unpack()
